@@ -339,7 +339,9 @@ pub fn build(
                 let mut function = function.clone();
                 let original_name = function.name.clone();
                 if associated_functions_used_names.contains(&original_name) {
-                    function.name = format!("{}_{}", base_name, original_name);
+                    // a raw identifier (`r#fn`) cannot be glued into a longer one as it is
+                    let unraw = |s: &str| s.strip_prefix("r#").unwrap_or(s).to_string();
+                    function.name = format!("{}_{}", unraw(&base_name), unraw(&original_name));
                 }
                 function.body = FunctionBody::field(base_name.clone(), original_name);
                 associated_functions_used_names.insert(function.name.clone());
